@@ -3982,3 +3982,65 @@ func hrParamSegmentNonEmpty(w *World, r *Report, rule string) {
 	needsChar := err == nil && repl != "" && !re.MatchString("/") && !re.MatchString("") && re.MatchString("/x")
 	r.Check(needsChar, rule, "RegexToReplacePathParameters/needs-a-character", token.NoPos, "a path parameter is registered as %q: one segment with at least one character (the URL tree itself follows a parameter node for any segment, so this is the only guard against users//posts being served as users/{id}/posts)", repl)
 }
+
+// hrStoredResponseOwnsItsHeaders: a response kept in memory, and each replay of it, has a header map of its
+// own. The response remedies of the same chain write their header edits into the message's map
+// (EnsureResponseIsUpdated) - a stored alias of that map keeps e.g. the retry remedy's
+// x-lunar-retry-after, and every replay asks the client to retry again, attempts used up or not.
+func hrStoredResponseOwnsItsHeaders(w *World, r *Report, rule string) {
+	n := 0
+	for _, name := range []string{"ResponseBasedThrottlingPlugin.OnResponse", "ResponseBasedThrottlingPlugin.OnRequest", "CachingPlugin.OnResponse", "CachingPlugin.OnRequest"} {
+		f := w.Fn(pkgRemedies, name)
+		if f == nil {
+			r.Undec(rule, name, token.NoPos, "function not found")
+			continue
+		}
+		Instrs(f, func(in ssa.Instruction) {
+			a, isA := in.(*ssa.Alloc)
+			if !isA {
+				return
+			}
+			st := structOf(a.Type())
+			if st != "CachedResponse" && st != "EarlyResponseAction" && st != "ResponseBasedThrottlingState" && !strings.Contains(st, "Response") {
+				return
+			}
+			v := singleFieldStoreByName(a, "Headers")
+			if v == nil {
+				return
+			}
+			n++
+			own := false
+			switch x := peel(v).(type) {
+			case *ssa.MakeMap:
+				own = true
+			case *ssa.Call:
+				own = isCallTo(x, "utils.DeepCopyHeaders", "maps.Clone")
+			case *ssa.Extract:
+				// getUpdatedHeaders builds the replayed header map anew (C12.R6 checks that it does)
+				if c, isC := x.Tuple.(*ssa.Call); isC && isCallTo(c, "remedies.getUpdatedHeaders") && x.Index == 0 {
+					own = true
+					if g := w.Fn(pkgRemedies, "getUpdatedHeaders"); g != nil {
+						for _, alt := range ReturnAlts(g, 0) {
+							switch y := peel(alt.Val).(type) {
+							case *ssa.MakeMap:
+							case *ssa.Const:
+							case *ssa.Call:
+								if !isCallTo(y, "utils.DeepCopyHeaders", "maps.Clone") {
+									own = false
+								}
+							default:
+								own = false // the stored map itself
+							}
+						}
+					}
+				}
+			case *ssa.Phi, *ssa.UnOp:
+				// a local map: made in this function, not read from a message or from the store
+				own = Derives(v, func(y ssa.Value) bool { _, isMk := y.(*ssa.MakeMap); return isMk }) &&
+					!strings.HasSuffix(Path(v), ".Headers")
+			}
+			r.Check(own, rule, shortFn(fnID(outermost(f)))+"/"+st+"/header-map-of-its-own", a.Pos(), "%s.Headers is a copy or a freshly made map (found %s)", st, trunc(Path(v), 70))
+		})
+	}
+	r.Check(n >= 3, rule, "stored-responses/header-maps", token.NoPos, "%d stored or replayed responses inspected", n)
+}
